@@ -25,6 +25,7 @@ import (
 	"io"
 	"math/rand"
 	"net"
+	"os"
 	"sort"
 	"strings"
 	"sync"
@@ -68,7 +69,20 @@ type reqSpec struct {
 	Body   string   `json:"body,omitempty"`
 	// Timeout: how the handler answers through the timeout path (0: it does not)
 	Timeout int `json:"timeout_mode,omitempty"`
+	// ConnNames: spelling of the field NAME of each Connection line ("" = Connection)
+	ConnNames []string `json:"connection_field_names,omitempty"`
+	// Bad: the request cannot be received/parsed (answered through Server.ErrorHandler, ends the conversation)
+	Bad string `json:"bad,omitempty"`
 }
+
+var connNames = []string{"Connection", "Connection", "connection", "CONNECTION", "cOnNeCtIoN"}
+
+var badKinds = []string{"bad-cl", "two-hosts", "bad-proto", "over-body", "over-head", "truncated-read-timeout"}
+
+var errHandlers = []string{"default", "sets status and body only", "builds a full response", "builds a full response with Connection: keep-alive"}
+var errStatus = []int{0, 418, 422, 422}
+
+const srvMaxBody, srvReadBuf = 64, 1024
 
 var toModes = []string{"", "ctx.TimeoutError", "ctx.TimeoutErrorWithCode(504)", "ctx.TimeoutErrorWithResponse(503)",
 	"ctx.TimeoutErrorWithResponse(503 + SetConnectionClose)", "TimeoutHandler(late inner handler)"}
@@ -85,6 +99,9 @@ type srvCase struct {
 	// Prefix: operations on the Server before the connection is served (it has no listener, so each is a no-op)
 	Prefix          int  `json:"prefix_op"`
 	CloseOnShutdown bool `json:"close_on_shutdown"`
+	NoNorm          bool `json:"disable_header_names_normalizing"`
+	GetOnly         bool `json:"get_only"`
+	ErrHandler      int  `json:"error_handler"`
 }
 
 var prefixOps = []string{"none", "Shutdown()", "Shutdown() twice", "ShutdownWithContext(Background)"}
@@ -121,6 +138,9 @@ func genSrvCase(r *rand.Rand) srvCase {
 		default:
 			q.Conn = []string{connVals[r.Intn(len(connVals))], connVals[r.Intn(len(connVals))]}
 		}
+		for range q.Conn {
+			q.ConnNames = append(q.ConnNames, connNames[r.Intn(len(connNames))])
+		}
 		if q.Method != "HEAD" && r.Intn(6) == 0 { // (HEAD + timeout is C16's subject)
 			q.Timeout = 1 + r.Intn(len(toModes)-1)
 		}
@@ -140,6 +160,34 @@ func genSrvCase(r *rand.Rand) srvCase {
 		c.Prefix = 1 + r.Intn(len(prefixOps)-1)
 	}
 	c.CloseOnShutdown = r.Intn(4) == 0
+	c.NoNorm = r.Intn(3) == 0
+	c.ErrHandler = r.Intn(len(errHandlers))
+	c.GetOnly = r.Intn(12) == 0
+	if r.Intn(4) == 0 {
+		b := r.Intn(n)
+		q := &c.Reqs[b]
+		q.Bad = badKinds[r.Intn(len(badKinds))]
+		q.Timeout = 0
+		if q.Method == "HEAD" {
+			q.Method = "GET"
+		}
+		if q.Bad == "bad-cl" || q.Bad == "over-body" {
+			q.Method = "POST"
+		}
+		if q.Bad == "truncated-read-timeout" {
+			c.Reqs = c.Reqs[:b+1] // the peer stops sending in the middle of this request
+		}
+	}
+	if c.GetOnly {
+		for x := range c.Reqs {
+			if c.Reqs[x].Method == "POST" && c.Reqs[x].Bad == "" {
+				c.Reqs[x].Bad, c.Reqs[x].Timeout = "getonly-post", 0
+			}
+		}
+	}
+	if c.HCIdx >= len(c.Reqs) {
+		c.HCIdx = -1
+	}
 	return c
 }
 
@@ -150,16 +198,47 @@ func (c *srvCase) script() (script []byte, msgEnds, headEnds []int) {
 		if q.V11 {
 			ver = "HTTP/1.1"
 		}
-		fmt.Fprintf(&b, "%s /r%d %s\r\nHost: h.test\r\n", q.Method, i, ver)
-		for _, v := range q.Conn {
-			fmt.Fprintf(&b, "Connection: %s\r\n", v)
+		start := b.Len()
+		body := q.Body
+		if q.Bad == "bad-proto" {
+			ver += " junk"
 		}
-		if q.Method == "POST" {
-			fmt.Fprintf(&b, "Content-Length: %d\r\n", len(q.Body))
+		fmt.Fprintf(&b, "%s /r%d %s\r\nHost: h.test\r\n", q.Method, i, ver)
+		for x, v := range q.Conn {
+			name := "Connection"
+			if x < len(q.ConnNames) && q.ConnNames[x] != "" {
+				name = q.ConnNames[x]
+			}
+			fmt.Fprintf(&b, "%s: %s\r\n", name, v)
+		}
+		switch q.Bad {
+		case "two-hosts":
+			b.WriteString("Host: other.test\r\n")
+		case "over-head":
+			fmt.Fprintf(&b, "X-Pad: %s\r\n", strings.Repeat("p", 2*srvReadBuf))
+		case "over-body":
+			body = strings.Repeat("x", 3*srvMaxBody)
+		}
+		if q.Bad == "bad-cl" {
+			b.WriteString("Content-Length: abc\r\n")
+			body = "zz"
+		} else if q.Method == "POST" {
+			fmt.Fprintf(&b, "Content-Length: %d\r\n", len(body))
 		}
 		b.WriteString("\r\n")
 		headEnds = append(headEnds, b.Len())
-		b.WriteString(q.Body)
+		b.WriteString(body)
+		if q.Bad == "truncated-read-timeout" {
+			// the peer stops in the middle of the request; the conn then reports a read timeout
+			cut := start + (b.Len()-start)*2/3
+			if len(body) > 0 && i%2 == 0 {
+				cut = b.Len() - (len(body)+1)/2
+			}
+			b.Truncate(cut)
+			if headEnds[len(headEnds)-1] > cut {
+				headEnds[len(headEnds)-1] = cut
+			}
+		}
 		msgEnds = append(msgEnds, b.Len())
 	}
 	return b.Bytes(), msgEnds, headEnds
@@ -186,6 +265,21 @@ func fragPlan(kind string, msgEnds, headEnds []int) func(int) int {
 	}
 }
 
+// timeoutConn answers the starvation point of a script that ends inside a request with a read timeout
+// (what a real socket reports when Server.ReadTimeout expires) instead of EOF.
+type timeoutConn struct {
+	*netx.Scripted
+	timeout bool
+}
+
+func (c *timeoutConn) Read(p []byte) (int, error) {
+	n, err := c.Scripted.Read(p)
+	if err == io.EOF && c.timeout {
+		return n, &net.OpError{Op: "read", Net: "tcp", Err: os.ErrDeadlineExceeded}
+	}
+	return n, err
+}
+
 type srvObs struct {
 	Calls     []string
 	Written   []byte
@@ -198,7 +292,8 @@ type srvObs struct {
 
 func runSrvCase(c *srvCase) srvObs {
 	script, msgEnds, headEnds := c.script()
-	conn := netx.NewScripted(script, fragPlan(c.Frag, msgEnds, headEnds))
+	sconn := netx.NewScripted(script, fragPlan(c.Frag, msgEnds, headEnds))
+	conn := &timeoutConn{Scripted: sconn, timeout: c.Reqs[len(c.Reqs)-1].Bad == "truncated-read-timeout"}
 	var o srvObs
 	// the inner handler of the TimeoutHandler action is held until ServeConn has returned: it is
 	// certainly late, and it touches neither ctx nor the connection
@@ -206,11 +301,15 @@ func runSrvCase(c *srvCase) srvObs {
 	defer close(gate)
 	late := fasthttp.TimeoutHandler(func(*fasthttp.RequestCtx) { <-gate }, time.Millisecond, "late")
 	s := &fasthttp.Server{
-		DisableKeepalive:   c.DK,
-		MaxRequestsPerConn: c.MaxReq,
-		ReduceMemoryUsage:  c.RMU,
-		CloseOnShutdown:    c.CloseOnShutdown,
-		Logger:             nopLogger{},
+		DisableKeepalive:              c.DK,
+		MaxRequestsPerConn:            c.MaxReq,
+		ReduceMemoryUsage:             c.RMU,
+		CloseOnShutdown:               c.CloseOnShutdown,
+		Logger:                        nopLogger{},
+		GetOnly:                       c.GetOnly,
+		MaxRequestBodySize:            srvMaxBody,
+		ReadBufferSize:                srvReadBuf,
+		DisableHeaderNamesNormalizing: c.NoNorm,
 		Handler: func(ctx *fasthttp.RequestCtx) {
 			p := string(ctx.Path())
 			o.Calls = append(o.Calls, p)
@@ -250,6 +349,25 @@ func runSrvCase(c *srvCase) srvObs {
 				late(ctx)
 			}
 		},
+	}
+	switch c.ErrHandler {
+	case 1:
+		s.ErrorHandler = func(ctx *fasthttp.RequestCtx, err error) {
+			ctx.SetStatusCode(errStatus[1])
+			ctx.SetBodyString("custom error")
+		}
+	case 2, 3:
+		keep := c.ErrHandler == 3
+		s.ErrorHandler = func(ctx *fasthttp.RequestCtx, err error) {
+			ctx.Response.Reset()
+			ctx.SetStatusCode(errStatus[2])
+			ctx.SetContentType("text/x-error")
+			ctx.Response.Header.Set("X-Error", "1")
+			if keep {
+				ctx.Response.Header.Set("Connection", "keep-alive")
+			}
+			ctx.SetBodyString("custom error: " + err.Error())
+		}
 	}
 	func() {
 		defer func() {
@@ -333,7 +451,13 @@ func (c *srvCase) class() string {
 		tl = append(tl, k)
 	}
 	sort.Ints(tl)
-	return fmt.Sprintf("n=%d dk=%v max=%d rmu=%v frag=%s hc=%s to=%v pre=%d cos=%v %v", len(c.Reqs), c.DK, c.MaxReq, c.RMU, c.Frag, hc, tl, c.Prefix, c.CloseOnShutdown, l)
+	bad := ""
+	for _, q := range c.Reqs {
+		if q.Bad != "" {
+			bad = q.Bad
+		}
+	}
+	return fmt.Sprintf("n=%d dk=%v max=%d rmu=%v frag=%s hc=%s to=%v pre=%d cos=%v nonorm=%v bad=%s/eh=%d %v", len(c.Reqs), c.DK, c.MaxReq, c.RMU, c.Frag, hc, tl, c.Prefix, c.CloseOnShutdown, c.NoNorm, bad, c.ErrHandler, l)
 }
 
 // batch collects a history's event counts and hands them to mon in one go.
@@ -396,11 +520,27 @@ func judgeSrv(r0 *mon.Run, i int, c *srvCase, o *srvObs) {
 		return
 	}
 	// response j answers request j: valid scripts, one handler call per response, in order.
-	mapped := len(o.Calls) == k
+	// A request that cannot be received is answered through the error handler (no handler call) and ends
+	// the conversation.
+	mapped := true
+	ci := 0
 	for j := 0; mapped && j < k; j++ {
-		if o.Calls[j] != fmt.Sprintf("/r%d", j) || finals[j].Status != toStatus[c.Reqs[j].Timeout] {
+		q := c.Reqs[j]
+		if q.Bad != "" {
+			want := errStatus[c.ErrHandler]
+			if j != k-1 || finals[j].Status < 400 || (want != 0 && finals[j].Status != want) {
+				mapped = false
+			}
+			r.Event("error_responses_judged", 1)
+			continue
+		}
+		if ci >= len(o.Calls) || o.Calls[ci] != fmt.Sprintf("/r%d", j) || finals[j].Status != toStatus[q.Timeout] {
 			mapped = false
 		}
+		ci++
+	}
+	if ci != len(o.Calls) {
+		mapped = false
 	}
 	if !mapped {
 		r.Event("skipped_unmapped_history", 1)
@@ -433,6 +573,8 @@ func judgeSrv(r0 *mon.Run, i int, c *srvCase, o *srvObs) {
 		switch {
 		case hasClose && stayedOpen:
 			r.Violation(i, "close-header-but-connection-kept", desc+" says close but the server went on reading/serving on the connection", payload(map[string]any{"response": j}))
+		case !hasClose && !stayedOpen && mapped && c.Reqs[j].Bad != "":
+			r.Violation(i, "error-response-without-close-header", fmt.Sprintf("%s answers request %d, which could not be received (%s; error handler: %s), and does not say close, but the server closed the connection", desc, j, c.Reqs[j].Bad, errHandlers[c.ErrHandler]), payload(map[string]any{"response": j}))
 		case !hasClose && !stayedOpen && c.Prefix != 0:
 			r.Violation(i, "noop-shutdown-leaves-server-stopping", desc+fmt.Sprintf(" does not say close but the server closed the connection without reading again; before serving, %s had been called on the (not listening) server", prefixOps[c.Prefix]), payload(map[string]any{"response": j}))
 		case !hasClose && !stayedOpen:
@@ -442,6 +584,9 @@ func judgeSrv(r0 *mon.Run, i int, c *srvCase, o *srvObs) {
 			continue
 		}
 		q := c.Reqs[j]
+		if q.Bad != "" {
+			continue // (judged by the header/close agreement above)
+		}
 		reqClose := optionIn(q.Conn, "close")
 		reqKA := optionIn(q.Conn, "keep-alive")
 		var reasons []string
@@ -480,7 +625,15 @@ func judgeSrv(r0 *mon.Run, i int, c *srvCase, o *srvObs) {
 							exactIdx = x
 						}
 					}
+					nonCanon := c.NoNorm // every line that carries close has a field name other than "Connection"
+					for x, v := range q.Conn {
+						if optionIn([]string{v}, "close") && (x >= len(q.ConnNames) || q.ConnNames[x] == "" || q.ConnNames[x] == "Connection") {
+							nonCanon = false
+						}
+					}
 					switch {
+					case nonCanon:
+						key = "connection-field-name-case-not-recognised"
 					case exactIdx < 0:
 						key = "connection-close-token-not-recognised"
 					case exactIdx < len(q.Conn)-1:
@@ -1244,6 +1397,7 @@ func TestC10(t *testing.T) {
 		r.Require("client_conns_count_checked", nCli/2)
 		r.Require("timeout_responses_judged", nSrv/10)
 		r.Require("histories_after_noop_shutdown", nSrv/5)
+		r.Require("error_responses_judged", nSrv/20)
 		r.Require("reuse_after_shutdown_checked", 8)
 	}
 }
